@@ -83,6 +83,7 @@ class Ctx:
         self.harness_error = None
         self.extra = {}
         self._case_fn = None
+        self._last_violation = None
 
     # ---- bookkeeping -------------------------------------------------------------
     def out_of_time(self) -> bool:
@@ -230,11 +231,18 @@ class Ctx:
                 return
             except SkipCase:
                 return
+            except Violation as v:
+                ctx._last_violation = v  # kept in case the wall budget ends the search while Hypothesis is shrinking
+                raise
 
+        self._last_violation = None
         try:
             test()
         except StopSearch:
-            pass
+            if self._last_violation is not None:
+                # budget used up during shrinking: report the smallest failing case seen so far
+                self._record_violation(self._last_violation)
+                raise self._last_violation
         except Violation as v:
             self._record_violation(v)
             raise
